@@ -65,6 +65,7 @@ import (
 
 	"github.com/google/martian/v3"
 	"github.com/google/martian/v3/cybervillains"
+	"github.com/google/martian/v3/h2"
 	mlog "github.com/google/martian/v3/log"
 	"github.com/google/martian/v3/mitm"
 	"verifharness/hx"
@@ -628,9 +629,17 @@ func newSession(in []string) (*session, []string, bool) {
 	if len(in) < 3 || len(in[1]) < 2 || in[1][0] != 'v' || len(in[2]) < 1 || in[2][0] != 'o' {
 		return nil, nil, false
 	}
-	vtok, kind := in[1][1:], "rsa"
-	if i := strings.IndexByte(vtok, ','); i >= 0 {
-		vtok, kind = vtok[:i], vtok[i+1:]
+	fields := strings.Split(in[1][1:], ",")
+	vtok, kind, skip, useH2 := fields[0], "rsa", false, false
+	for _, f := range fields[1:] {
+		switch f {
+		case "skip":
+			skip = true
+		case "h2":
+			useH2 = true
+		default:
+			kind = f
+		}
 	}
 	ca := w.cas[kind]
 	vms, err := strconv.ParseInt(vtok, 10, 64)
@@ -642,6 +651,11 @@ func newSession(in []string) (*session, []string, bool) {
 		return nil, nil, false
 	}
 	cfg.SetValidity(time.Duration(vms) * time.Millisecond)
+	// options that must not change any certificate decision
+	cfg.SkipTLSVerify(skip)
+	if useH2 {
+		cfg.SetH2Config(&h2.Config{AllowedHostsFilter: func(string) bool { return true }})
+	}
 	cfg.SetOrganization(unhexS(in[2][1:]))
 	return &session{cfg: cfg, ca: ca, idx: map[*tls.Certificate]int{}}, in[3:], true
 }
@@ -919,10 +933,20 @@ const hour = "v3600000"
 // vt: validity token with the CA kind; k cycles through the CA kinds.
 func vt(ms int64, k int) string {
 	kind := caKinds[((k%len(caKinds))+len(caKinds))%len(caKinds)]
-	if kind == "rsa" {
-		return fmt.Sprintf("v%d", ms)
+	t := fmt.Sprintf("v%d", ms)
+	if kind != "rsa" {
+		t += "," + kind
 	}
-	return fmt.Sprintf("v%d,%s", ms, kind)
+	// the option dimension (SkipTLSVerify, SetH2Config) rotates independently of the CA kind
+	switch ((k / len(caKinds)) + k) % 4 {
+	case 1:
+		t += ",skip"
+	case 2:
+		t += ",h2"
+	case 3:
+		t += ",skip,h2"
+	}
+	return t
 }
 
 // validities exercised besides the default hour: 5 s, 10 years, 100 years
